@@ -626,6 +626,26 @@ pub fn c34(base: &Case, rng: &mut Rng, thorough: bool) -> Vec<Mutant> {
         }
     }
     if base.is_byron() {
+        // the difference inputs - outputs placed exactly at / one below the minimum fee
+        use pallas_validate::utils::MultiEraProtocolParameters as P;
+        if let P::Byron(pp) = base.prot_params() {
+            for (d, label) in [(0i128, "byron-fee=min"), (-1, "byron-fee=min-1")] {
+                let mut c = base.clone();
+                let i = c.richest_output();
+                let others: u128 = (0..n).filter(|k| *k != i).map(|k| c.out_coin(k) as u128).sum();
+                for _ in 0..4 {
+                    let size = (c.tx_bytes().len() - 1) as u128;
+                    let fee = (pp.summand as u128 + pp.multiplier as u128 * size) as i128 + d;
+                    let want = total_in as i128 - others as i128 - fee;
+                    if want <= 0 {
+                        break;
+                    }
+                    val_set_coin(c.out_value_mut(i).unwrap(), want as u64);
+                    c.resign();
+                }
+                out.push(m(label, c));
+            }
+        }
         return out;
     }
     if base.supports_mint() {
@@ -652,6 +672,8 @@ pub fn c34(base: &Case, rng: &mut Rng, thorough: bool) -> Vec<Mutant> {
             (0, 1, 0, "mint+1/not-produced"),
             (0, 1, 2, "mint+1/produced-2"),
             (0, 0, 1, "no-mint/produced-1"),
+            (5, 0, 0, "spent-5/not-produced"),
+            (5, 0, 5, "spent-5/produced-5"),
             (5, -1, 4, "burn-1/balanced"),
             (5, -1, 5, "burn-1/still-produced"),
             (0, -1, 0, "burn-absent/-1"),
@@ -669,7 +691,8 @@ pub fn c34(base: &Case, rng: &mut Rng, thorough: bool) -> Vec<Mutant> {
         let chosen: Vec<_> = if thorough { cases } else { cases.into_iter().enumerate().filter(|(i, _)| i % 2 == 0 || rng.chance(1, 2)).map(|(_, c)| c).collect() };
         for (inq, mq, outq, label) in chosen {
             let mut c = base.clone();
-            let p = c.ensure_trivial_policy();
+            // the policy script is only witnessed when something is minted (an unneeded script is rejected)
+            let p = if mq != 0 { c.ensure_trivial_policy() } else { Case::trivial_policy().0 };
             if inq > 0 {
                 if let Some(u) = c.utxo_index_of(0, 0) {
                     val_set_asset(c.utxo_value_mut(u).unwrap(), &p, b"M", Cb::uint(inq));
